@@ -249,20 +249,13 @@ func inode(path string) uint64 {
 	return st.Sys().(*syscall.Stat_t).Ino
 }
 
-// Impl runs the real code on each op.
-func Impl() {
-	tmp, err := os.MkdirTemp("", "vh-c12-")
-	if err != nil {
-		panic(err)
-	}
-	defer os.RemoveAll(tmp)
-	seq := 0
-	hx.EachLine(func(f []string) string {
+// Handle runs the real code on one op.
+func Handle(f []string) string {
+	{
 		switch f[0] {
 		case "apply":
-			seq++
-			dir := filepath.Join(tmp, fmt.Sprint(seq))
-			if err := os.Mkdir(dir, 0o755); err != nil {
+			dir, err := os.MkdirTemp("", "vh-c12-")
+			if err != nil {
 				panic(err)
 			}
 			defer os.RemoveAll(dir)
@@ -300,7 +293,7 @@ func Impl() {
 			return strings.Join(parts, " ")
 		}
 		return "bad-op"
-	})
+	}
 }
 
 func doApply(dir string, orig []byte, mode, via string, cs []call) string {
